@@ -120,11 +120,13 @@ def model_runs(ctx):
         for cfg in ("MC_portable_panic.cfg", "MC_batch_cap4.cfg", "MC_batch_noinline.cfg", "MC_mixed3.cfg", "MC_portable_w2.cfg", "MC_batch_all.cfg"):
             ctx.tlc("UdpJob", "MC_UdpJob.tla", cfg, workers=4, timeout=3000, heap="12g")
     # ---- regression configs: the invariants are not vacuous -------------------
-    regress = [("MC_regress_noscrub.cfg", ("ReplyIsOwn", "SilentStaysSilent")),
+    # (a stale staged length also reaches the nil burst of an overflow serve: ReleaseOnce is the same defect's
+    # second symptom, and which invariant TLC's parallel BFS reports first at equal depth is not deterministic)
+    regress = [("MC_regress_noscrub.cfg", ("ReplyIsOwn", "SilentStaysSilent", "ReleaseOnce")),
                ("MC_regress_norawsa.cfg", ("ReplyIsOwn",)),
                ("MC_regress_both.cfg", ("SingleOwner", "AtMostOneSend", "ReleaseOnce"))]
     if thorough:
-        regress.append(("MC_regress_noscrub_batch.cfg", ("ReplyIsOwn", "SilentStaysSilent")))
+        regress.append(("MC_regress_noscrub_batch.cfg", ("ReplyIsOwn", "SilentStaysSilent", "ReleaseOnce")))
     for cfg, want in regress:
         r = ctx.tlc("UdpJob", "MC_UdpJob.tla", cfg, workers=4, timeout=900, heap="6g", must_pass=False,
                     tag="regression", count=False)
